@@ -49,13 +49,17 @@ def shards(tier, seed):
     for d in (0, 1, 3):
         for g in (1.0, -1.0):
             out.append({"part": "siso", "d": d, "g": g, "seed": seed})
+    for q in (2, 3):
+        for variant in range(4):
+            out.append({"part": "delayed", "q": q, "variant": variant, "seed": seed, "analytic": q == 2 or (tier == "thorough")})
+    out.append({"part": "units", "seed": seed})
     out.sort(key=lambda s: -(s.get("q", 1) ** 3 * (4 if s.get("analytic") else 1)))
     return out
 
 
 def run_shard(shard):
     logging.disable(logging.CRITICAL)
-    return {"static": _static, "mix": _mix, "siso": _siso}[shard["part"]](shard)
+    return {"static": _static, "mix": _mix, "siso": _siso, "delayed": _delayed, "units": _units}[shard["part"]](shard)
 
 
 def replay(case):
@@ -227,4 +231,99 @@ def _siso(shard):
             acc.physical(f"siso/{nm}", r, s00, K, 1)
             acc.equal(f"siso/{nm}-vs-Gyy(1-coh)", r, want, s00, K, 1, f"{nm} residual vs sqrt(Gyy(1-coh)) for delay {d}, gain {g}, noise {noise}")
     acc.out["samples"].append({"delay": d, "gain": g, "resid": np.asarray(r_s)[-3:].tolist()})
+    return acc.out
+
+
+def ref_residual(U, y):
+    """Reference residual power per bin from the library's own spectral estimates (whose correctness is C05/C09):
+    S00 - Re(S^H T^-1 S) with T_ij = Gxy(u_i,u_j) = <U_i conj U_j>, S_i = Gxy(u_i,y)."""
+    from speckit import compute_spectrum
+    q = len(U)
+    s00 = S00(y)
+    nf = len(s00)
+    T = np.zeros((q, q, nf), dtype=complex)
+    S = np.zeros((q, nf), dtype=complex)
+    for i in range(q):
+        T[i, i] = compute_spectrum(U[i], FS, **KW).Gxx
+        S[i] = compute_spectrum(np.stack([U[i], y]), FS, **KW).Gxy
+        for j in range(i + 1, q):
+            g = compute_spectrum(np.stack([U[i], U[j]]), FS, **KW).Gxy
+            T[i, j] = g
+            T[j, i] = np.conj(g)
+    out = np.zeros(nf)
+    cond = np.zeros(nf)
+    for k in range(nf):
+        Tk, Sk = T[:, :, k], S[:, k]
+        cond[k] = np.linalg.cond(Tk)
+        try:
+            out[k] = s00[k] - np.real(np.conj(Sk) @ np.linalg.solve(Tk, Sk))
+        except np.linalg.LinAlgError:
+            out[k] = np.nan
+    return out, s00, cond
+
+
+def delay(u, d):
+    return np.concatenate([np.full(d, u[0]), u[:len(u) - d]]) if d else u.copy()
+
+
+def _delayed(shard):
+    """q >= 2 inputs that are mutually correlated with a relative delay, output coupled with different delays/phases."""
+    q, v, seed = shard["q"], shard["variant"], shard["seed"]
+    num, anl, siso = solvers()
+    K, f = plan_K()
+    acc = Acc(shard)
+    base = inputs(q, seed)
+    # make the inputs mutually correlated with a relative delay
+    U = [base[0]] + [base[i] + (0.6 + 0.1 * i) * delay(base[0], 1 + i + v) for i in range(1, q)]
+    dl = [(0, 2, 1), (3, 0, 2), (1, 1, 4), (2, 5, 0)][v]
+    y = sum((1.0 + 0.5 * i) * (-1) ** i * delay(U[i], dl[i]) for i in range(q)) + 0.3 * records.get("chirp", N, seed)
+    ref, s00, cond = ref_residual(U, y)
+    m = (K > q) & np.isfinite(ref) & (cond < 1e6)
+    results = {"numeric": num(U, y, FS, **KW)[1]}
+    if shard.get("analytic"):
+        results["analytic"] = anl(U, y, FS, **KW)[1]
+    for nm, r in results.items():
+        acc.physical(f"delayed/{nm}/q={q}", r, s00, K, q)
+        d = np.abs(np.asarray(r) ** 2 - np.maximum(ref, 0.0)) / np.maximum(s00, 1e-300)
+        acc.out["evals"] += int(m.sum())
+        acc.out["nontrivial"] += int(m.sum())
+        bad = m & ~(d <= 1e-7 + 1e-13 * cond)
+        if bad.any():
+            j = int(np.nonzero(bad)[0][0])
+            acc.add(f"delayed/{nm}-vs-reference/q={q}", f"bin {j} (K={int(K[j])}): {nm} residual^2={np.asarray(r)[j] ** 2!r} but S00 - S^H T^-1 S = {ref[j]!r} (S00={s00[j]!r})")
+    if len(results) == 2:
+        acc.equal(f"delayed/analytic-vs-numeric/q={q}", results["analytic"], results["numeric"], s00, K, q, "analytic vs numeric solver")
+    for perm in itertools.permutations(range(q)):
+        if perm != tuple(range(q)):
+            acc.equal(f"delayed/permutation/q={q}", num([U[i] for i in perm], y, FS, **KW)[1], results["numeric"], s00, K, q, f"inputs reordered {perm}")
+    acc.out["samples"].append({"q": q, "variant": v, "delays": list(dl[:q]), "resid": np.asarray(results["numeric"])[-3:].tolist()})
+    return acc.out
+
+
+def _units(shard):
+    """Invertible re-mixing that is a change of units / nearly collinear inputs: the residual must not change, and an
+    exact combination must still leave zero residual.  Power tolerance 1e-4*S00 (the linear systems have condition
+    numbers up to ~1e10; rounding of a correct solver stays below 1e-6*S00)."""
+    seed = shard["seed"]
+    num, anl, siso = solvers()
+    K, f = plan_K()
+    acc = Acc(shard)
+    U = inputs(2, seed)
+    mixes = [np.diag([1.0, 3e4]), np.diag([3e-5, 1.0]), np.array([[1.0, 1.0], [1.0, 1.0 + 1e-4]]), np.array([[1e4, 1.0], [0.0, 1.0]])]
+    for kind in ("exact", "plus"):
+        y = 2.0 * U[0] - 0.5 * U[1] + (0.7 * records.get("chirp", N, seed) if kind == "plus" else 0.0)
+        s00 = S00(y)
+        base = np.asarray(num(U, y, FS, **KW)[1])
+        m = K > 2
+        for M in mixes:
+            V = [M[i, 0] * U[0] + M[i, 1] * U[1] for i in range(2)]
+            for nm, solver in (("numeric", num), ("analytic", anl)):
+                r = np.asarray(solver(V, y, FS, **KW)[1])
+                d = np.abs(r ** 2 - base ** 2) / np.maximum(s00, 1e-300)
+                acc.out["evals"] += int(m.sum())
+                acc.out["nontrivial"] += int(m.sum())
+                if not np.all(d[m] <= 1e-4):
+                    j = int(np.nonzero(m)[0][int(np.argmax(d[m]))])
+                    acc.add(f"units/{kind}/{nm}", f"inputs re-mixed by {M.tolist()}: residual at bin {j} = {r[j]!r} but {base[j]!r} for the original inputs (sqrt(S00)={np.sqrt(s00[j])!r})")
+    acc.out["samples"].append({"units": [M.tolist() for M in mixes]})
     return acc.out
